@@ -12,7 +12,7 @@ from common import Ctx, driver_json, fmt, rel_close
 import uni_common as U
 
 PROPERTY = "C08"
-LEAN_MODULES = ["Proofs.C08", "Proofs.C08.Bar", "Proofs.C08.Ops", "Proofs.C08.Shares"]
+LEAN_MODULES = ["Proofs.C08", "Proofs.C08.Bar", "Proofs.C08.Ops", "Proofs.C08.Shares", "Proofs.C08.Range", "Proofs.C08.RangeOps", "Proofs.C08.Run"]
 DRIVERS = ["driver"]
 RULE = ("(a) direct V3CoreLib.update_fee on random (previous close | nan, close, range, own/pool liquidity, volumes, decimals, fee tier, tick dtype "
         "python-int/int64/float64) with a boundary stream (close or previous close exactly on a bound, one tick inside, jump across the whole range "
